@@ -21,6 +21,7 @@ import (
 	"github.com/hyperledger/aries-framework-go/component/storageutil/mem"
 	"github.com/hyperledger/aries-framework-go/pkg/didcomm/common/service"
 	"github.com/hyperledger/aries-framework-go/pkg/didcomm/protocol/decorator"
+	"github.com/hyperledger/aries-framework-go/pkg/didcomm/protocol/introduce"
 	"github.com/hyperledger/aries-framework-go/pkg/didcomm/protocol/issuecredential"
 	"github.com/hyperledger/aries-framework-go/pkg/didcomm/protocol/presentproof"
 	spilog "github.com/hyperledger/aries-framework-go/spi/log"
@@ -290,6 +291,16 @@ func c09Run(input string) string {
 		_ = svc.RegisterMsgEvent(events)
 		st, _ := sp.OpenStore(issuecredential.Name)
 		drv = &icDriver{svc: svc, store: st, v3: parts[0] == "ic3"}
+	case "in1":
+		oob := &c09OOB{}
+		svc, err := introduce.New(&c09InProvider{c09Provider: *prov, oob: oob})
+		if err != nil {
+			return "setup-error " + err.Error()
+		}
+		_ = svc.RegisterActionEvent(actions)
+		_ = svc.RegisterMsgEvent(events)
+		st, _ := sp.OpenStore(introduce.Introduce)
+		drv = &inDriver{svc: svc, store: st, oob: oob}
 	default:
 		return "bad-proto"
 	}
@@ -340,6 +351,13 @@ func c09Run(input string) string {
 				pending[i].Continue(drv.contOpt(f[2]))
 			} else {
 				pending[i].Stop(nil)
+			}
+		case "oob":
+			threads[f[1]] = true
+			if d, ok := drv.(*inDriver); ok {
+				d.oobEvent(f[1], n)
+			} else {
+				bad = true
 			}
 		case "fail":
 			// arm a transport fault: the K-th send from now fails (K = 1: the next one)
@@ -552,6 +570,7 @@ func c09Gen(r *Rng, tier string) []string {
 		nx = 1500
 	}
 	out = append(out, c09xGen(r, nx)...)
+	out = append(out, c09inGen(r, 10*nx)...)
 	return out
 }
 
